@@ -188,7 +188,7 @@ def _rechunk_batch(batch):
     r = V.run_tlc(d, "RechunkTrace", workers=2, timeout=2400, env={"TRACE_FILE": os.path.join(d, "traces.json")},
                   args=["-continue"], heap="3g")
     import re
-    rejected = sorted({int(m.group(1)) for m in re.finditer(r"/\\ tid = (\d+)", r.out)})
+    rejected = sorted({int(m.group(1)) for m in re.finditer(r"\btid = (\d+)", r.out)})
     return dict(ok=r.ok, violated=r.violated, rejected=rejected, generated=r.generated, distinct=r.distinct, depth=r.depth, wall=r.wall,
                 out=None if (r.ok or r.violated) else r.out[-2000:])
 
